@@ -159,6 +159,16 @@ func (e *Engine) runScans(prop string) []ScanResult {
 								}
 							}
 						}
+					case "stores-map":
+						// any update (or delete) of a map whose type reads Target, e.g. map[string]*BlockNode
+						if mu, ok := in.(*ssa.MapUpdate); ok && shortTypeString(mu.Map.Type()) == fr.Target {
+							hit = true
+						}
+						if ci, ok := in.(ssa.CallInstruction); ok {
+							if b, ok := ci.Common().Value.(*ssa.Builtin); ok && (b.Name() == "delete" || b.Name() == "clear") && len(ci.Common().Args) > 0 && shortTypeString(ci.Common().Args[0].Type()) == fr.Target {
+								hit = true
+							}
+						}
 					case "stores-global":
 						if st, ok := in.(*ssa.Store); ok {
 							if g, ok := st.Addr.(*ssa.Global); ok && g.Pkg != nil && strings.HasPrefix(g.Pkg.Pkg.Path(), jetPath) && matchPattern(fr.Target, g.Name()) {
@@ -444,4 +454,14 @@ func (e *Engine) findCycle(fns []*ssa.Function, target string, cuts []string) st
 		return strings.Join(path, " -> ")
 	}
 	return ""
+}
+
+// shortTypeString: the type as written inside package jet (no package path on jet's own types).
+func shortTypeString(t types.Type) string {
+	return types.TypeString(t, func(p *types.Package) string {
+		if strings.HasSuffix(p.Path(), "CloudyKit/jet/v6") {
+			return ""
+		}
+		return p.Name()
+	})
 }
